@@ -198,6 +198,25 @@ def _extend_withdraws(it, args, kwargs, fr, node):
     return None
 
 
+def _attrs_with_nexthop(it, name):
+    """the decoded collection at the end of _parse_payload: which mandatory attributes it holds, the marker, and the
+    NEXT_HOP attribute with the length of its value"""
+    c = it.ctx
+    nlen = c.fresh('len(NEXT_HOP)')
+    c.assume(z3.And(nlen >= 0, nlen <= 65535))
+    c.inputs.setdefault(str(nlen), ('int', nlen))
+    fields = {}
+    for f_ in ('marker', 'has_origin', 'has_aspath', 'has_nexthop'):
+        v = c.fresh(f'{name}.{f_}', B)
+        c.inputs.setdefault(str(v), ('bool', v))
+        fields[f_] = v
+    fields['nexthop_len'] = nlen
+    fields['contains!'] = _contains_code
+    nh = VObj(None, {'_packed': c.fresh_bytes('NEXT_HOP._packed', 'bytes', length=nlen), 'bool!': True}, 'NEXT_HOP')
+    fields['getitem!'] = lambda it2, o, k: nh
+    return VObj(None, fields, name)
+
+
 contract(
     UC,
     'UpdateCollection._parse_payload',
@@ -205,14 +224,15 @@ contract(
     segment={'from': 'if announces and (', 'to': None},
     params={
         'cls': const(None),
-        'attributes': obj(None, marker=bool_(), has_origin=bool_(), has_aspath=bool_(), has_nexthop=bool_(), **{'contains!': const(_contains_code)}),
+        'attributes': custom(lambda it, n: _attrs_with_nexthop(it, n)),
         'announces': seq(obj(None, nlri=obj(None))),
         'announced_view': bytes_(0, 4096),
         'withdraws': obj(None),
     },
     ghost={'moved': const(False)},
     callees={'withdraws.extend': _extend_withdraws, 'cls': lambda it, a, k, fr, n: VTuple(a)},
-    lets={'missing': 'len(announces) > 0 and (not attributes.has_origin or not attributes.has_aspath or (len(announced_view) > 0 and not attributes.has_nexthop))'},
+    # RFC 7606 3.d (a mandatory attribute is missing) and 7.3 (the NEXT_HOP of the routes of the NLRI field is 4 octets)
+    lets={'missing': 'len(announces) > 0 and (not attributes.has_origin or not attributes.has_aspath or (len(announced_view) > 0 and (not attributes.has_nexthop or attributes.nexthop_len != 4)))'},
     ensures=[
         # RFC 7606: treat-as-withdraw marker, or (section 3.d) routes announced without ORIGIN / AS_PATH / (NEXT_HOP when the
         # NLRI field is used) => nothing is announced, and the announced NLRI were handed to the withdraw list
@@ -290,7 +310,9 @@ contract(
     props=('C19', 'C08', 'C02'),
     params={'cls': custom(_cls_param), 'data': bytes_(0, 65535), 'negotiated': obj(None, asn4=bool_(), aigp=bool_())},
     requires=[CACHE_INV],
-    callees={'cls().parse': _parse_call, 'attributes.merge_attributes': noop},
+    # merge (2-byte session) and removal of AS4_PATH (4-byte session, RFC 6793 section 6): neither touches the ghost fields
+    # this contract speaks about (bytes, context, markers, MP attributes)
+    callees={'cls().parse': _parse_call, 'attributes.merge_attributes': noop, 'attributes.remove': noop},
     raises=[{'exc': 'Notify', 'cover': False}],
     ensures=[
         # what is returned is a decode of THESE bytes under THIS session's parameters -- fresh or cached
